@@ -99,10 +99,23 @@ for w in WINS:
     x2.append(add(w, "groupby(col).var[ddof=2]", lambda x: x.groupby("k").x.var(ddof=2)))
     x2.append(add(w, "groupby(series).std[ddof=0]", lambda x: x.groupby(x.k).x.std(ddof=0)))
     x2.append(add(w, "groupby(col).mean[frame]", lambda x: x.groupby("k")[XY].mean(), cols=XY))
+    x2.append(add(w, "sum[10-x]", lambda x: (10 - x.x).sum()))            # reflected operator: the window is the second operand
+    x2.append(add(w, "mean[2/x]", lambda x: (2 / x.x).mean()))
+    x2.append(add(w, "groupby(index).sum", lambda x: x.groupby(x.index).x.sum()))
+    x2.append(add(w, "groupby(index).size", lambda x: x.groupby(x.index).x.size()))
     x2.append(add(w, "two:var(ddof=1)|var(ddof=0)", _two(lambda x: x.x.var(ddof=1), lambda x: x.x.var(ddof=0))))
     x2.append(add(w, "two:groupby.var(ddof=1)|var(ddof=0)", _two(lambda x: x.groupby("k").x.var(ddof=1), lambda x: x.groupby("k").x.var(ddof=0))))
     x2.append(add(w, "two:groupby.var(ddof=0)|var(ddof=1)", _two(lambda x: x.groupby("k").x.var(ddof=0), lambda x: x.groupby("k").x.var(ddof=1))))
     if w[0] == "t":
+        import pandas as _pd
+        key = "%s.sum[Timedelta]" % wlabel(w)
+        SPECS[key] = F.Spec(key, "%s.sum" % wsite(w), "window", lambda d, w=w: d.window(_pd.Timedelta(w[1])).x.sum(), lambda view: view.x.sum(),
+                            win=w, classify=CLS, rank=1)
+        x2.append(key)
+        key = "%s.count[value=Timedelta]" % wlabel(w)
+        SPECS[key] = F.Spec(key, "%s.count" % wsite(w), "window", lambda d, w=w: d.window(value=_pd.Timedelta(w[1])).x.count(), lambda view: view.x.count(),
+                            win=w, classify=CLS, rank=1)
+        x2.append(key)
         # the duration given positionally: window('2s')
         key = "%s.sum[positional]" % wlabel(w)
         SPECS[key] = F.Spec(key, "%s.sum" % wsite(w), "window", lambda d, w=w: d.window(w[1]).x.sum(), lambda view: view.x.sum(),
